@@ -425,6 +425,39 @@ pub fn encode(m: &GMsg, mode: Compress, r: &mut Rng) -> (Vec<u8>, Layout) {
     (e.buf, e.layout)
 }
 
+/// Encode `m` with one padding record (root owner, unknown type `rtype`, class IN, opaque data) pushed
+/// at the end of section `sec`, sized such that the whole message is exactly `target` bytes long.
+/// The first pass uses a pad that already moves everything behind it past the 14-bit pointer range, so
+/// the compression choices (drawn from a clone of the generator state) are the same in both passes.
+pub fn encode_padded(m: &mut GMsg, mode: Compress, r: &mut Rng, sec: usize, rtype: u16, target: usize) -> Option<(Vec<u8>, Layout)> {
+    const L0: usize = 0x4000;
+    let seed = r.byte();
+    let pad = |n: usize| GRec {
+        owner: GName::root(),
+        rtype,
+        rclass: 1,
+        ttl: 0,
+        data: GData::Raw((0..n).map(|i| seed.wrapping_add((i % 251) as u8)).collect()),
+        rdlen_delta: 0,
+    };
+    m.sections[sec].push(pad(L0));
+    let mut r0 = r.clone();
+    let (b0, _) = encode(m, mode, &mut r0);
+    let want = L0 as i64 + target as i64 - b0.len() as i64;
+    let last = m.sections[sec].len() - 1;
+    if want < L0 as i64 || want > 65535 {
+        m.sections[sec].remove(last);
+        return None;
+    }
+    m.sections[sec][last] = pad(want as usize);
+    let out = encode(m, mode, r);
+    if out.0.len() != target {
+        m.sections[sec].remove(last);
+        return None;
+    }
+    Some(out)
+}
+
 /// mutate bytes: flips, truncation, insertion
 pub fn mutate(buf: &mut Vec<u8>, r: &mut Rng) {
     if buf.is_empty() {
